@@ -16,7 +16,8 @@ META = {
         'R2': 'the five points of the exact predicate are distinct: the wall arm of right_loc is the mirror image 2*proj - L, which must differ from L for every generator in the closed box',
         'R3': 'ties go to the exact predicate: the value tested for removal is the float filter\'s sign when the filter is decisive and the exact predicate\'s sign when the filter returns 0; '
               'the filter bound dominates the rounding error of every component product: errb == eps*(1 + sum_c |n_c|*|p_c| ...) with eps > 0',
-        'R4': 'predicate arguments: (iloc(L), iloc(right_loc(dual[s0])), iloc(right_loc(dual[s1])), iloc(right_loc(dual[s2])), iloc(right_loc(new plane))) with (s0,s1,s2) an even permutation of (0,1,2)',
+        'R4': 'predicate arguments: (iloc(L), iloc(right_loc(dual[s0])), iloc(right_loc(dual[s1])), iloc(right_loc(dual[s2])), iloc(right_loc(new plane))) with (s0,s1,s2) an even permutation of (0,1,2); '
+              'right_loc of a neighbour plane is the stored generator position (+ shift), not a value recomputed per cell (C03.R5)',
         'R5': 'iloc: every component is to_bits(1 + (x_c - a\'_c)*inv_c) & (2^52 - 1) with a\' = A - k_lo*W and inv = 1/(k*W), k > 0 (monotone, axis c uses the quantities of axis c)',
     },
     'explanation': 'Decides the structural preconditions of robust tie-breaking: the integer grid contains every queried position (R1, closed below / open above exactly as iloc requires), '
@@ -248,7 +249,7 @@ def r2(ctx, F, rule, sfx):
                 axis_kind = 'active-axis' if c < NACT[dim] else 'inactive-axis'
                 inst = 'mirror-differs-from-generator:%s:%s:%s-%s%s' % (dim, kind, AX[c], side, sfx)
                 if coincide:
-                    ctx.bad(rule, 'mirror-differs-from-generator:%s:%s%s' % (kind, axis_kind, sfx), '%s wall %s-%s: the mirror image through this wall equals the generator at %s (generator exactly on the wall): two predicate points coincide' % (dim, AX[c], side, where_t),
+                    ctx.bad(rule, 'mirror-differs-from-generator:%s:%s' % (kind, axis_kind), '%s wall %s-%s: the mirror image through this wall equals the generator at %s (generator exactly on the wall): two predicate points coincide' % (dim, AX[c], side, where_t),
                             'mirror != generator for every generator in the closed box', where(cub), key_extra='wall-mirror-coincides-with-generator|%s|%s' % (kind, axis_kind))
                 else:
                     ctx.ok(rule, inst, 'wall outside the range of generator coordinates', 'distinct', where(cub))
@@ -347,6 +348,10 @@ def r4(ctx, F, rule, sfx):
               'iloc(right_loc(planes[dual[s]])) for an even permutation s of (0,1,2), all of the vertex being tested', w, key_extra='perm:%s' % sig)
     ok4 = a[4] == il + rlp + 'newplane, cell.idx, generators))'
     ctx.check(rule, 'query-point-is-new-neighbour' + sfx, ok4, a[4][-70:], 'iloc(p.right_loc(self.idx, generators))', w, key_extra='v')
+    # the neighbour points are the stored generator positions (+ shift): the same value in every cell that sees this
+    # neighbour, which is what makes ties globally consistent (C03.R5)
+    from . import c03
+    c03.r5(ctx, F, rule, sfx)
     # the tested vertex is the one the float filter was applied to
     fl = [x for x in ip.events if x.callee and strip_generics(x.callee).endswith('HalfSpace::clip') and x.body is cb]
     if fl and vert is not None:
